@@ -40,6 +40,8 @@ def run(ctx):
         if ex is None or ex["det"] <= 0 or ex["V"] <= 0:
             ctx.count("degenerate_exact_skipped"); continue
         tol = SC.tol_cond(nl, ex["cond"], ex["kappa"])
+        if tol > Fraction(1, 1000):
+            ctx.count("cancellation_dominates(cond*kappa)_skipped"); continue
         # u vectors: sum_e x_e s_el p_e
         um = [[Fraction(b2f(b)) for b in row] for row in a["meta"]["u"]]
         n = len(x)
